@@ -302,7 +302,19 @@ func atomIntegral(a *Atom) bool {
 			return true
 		}
 	case "cell":
-		return strings.HasSuffix(a.Root, ".Index")
+		return strings.HasSuffix(a.Root, ".Index") || a.Root == "GlobalVarsMain.N"
+	case "phi":
+		// a join is integral when every value it abstracts is
+		arms, ok := allPhis[a.Key]
+		if !ok || len(arms) == 0 {
+			return false
+		}
+		for _, arm := range arms {
+			if !arm.Has || !isIntegral(stripInt(arm.Val)) {
+				return false
+			}
+		}
+		return true
 	}
 	return false
 }
